@@ -217,6 +217,13 @@ def quick_plans(rng, thorough):
         add("V4R4", stm="0", str="1", identity_style="none-cfm", none_style="default", n_overrides=1, extra_cf=[[b"ExtraN".hex(), "0"]])
         add("V4R4", stm="0", str="1", identity_style="none-cfm", none_style="explicit", n_overrides=0, extra_cf=[])
         add("V5R5", stm="3", str="0", identity_style="none-cfm", none_style="explicit", n_overrides=0, extra_cf=[])
+        # per-stream /Crypt overrides naming /Identity and a named non-default filter, on streams a writer copies unfiltered
+        # (/Filter /Crypt alone with --stream-data=preserve ..., [/Crypt /DCTDecode] always): the writer side of preservation
+        ident = gen.IDENTITY.hex()
+        for sch, sm, xm in (("V4R4", "1", "2"), ("V4R4", "2", "1"), ("V5R5", "3", "3")):
+            add(sch, stm=sm, str=sm, layout="classic", n_overrides=0, em=True, crypt_family=True, extra_cf=[[b"Other".hex(), xm]],
+                force_named=[["dct0", "arr", ident], ["dct1", "arr", b"Other".hex()], ["plain0", "dict", ident], ["plain1", "dict", b"Other".hex()],
+                             ["plain2", "arr", ident]])
         # signature dictionaries: /Contents is never encrypted; with and without the optional /Type /Sig
         add("V4R4", stm="2", str="2", sig="typed", layout="classic")
         add("V5R5", stm="3", str="3", sig="typed", layout="classic")
@@ -307,109 +314,175 @@ def leaf_class(ef, l):
 
 
 # ---------------------------------------------------------------- independent reading of an encrypted output of qpdf
-def read_encrypted_output(path, key_hex, run):
-    """sequential scan + ISO reference decryptor (extracted IsoRef.iso_decrypt_data) with the KNOWN file key.
-    returns (objs {(n,g): obj}, trailer, encdict, info) or raises"""
-    import c05
-    data = open(path, "rb").read()
-    info = c05.enc_info(data)
-    aes = 1 if info["aes"] else 0
-    lines, meta = [], []
-    for og in info["order"]:
-        o, off = info["objs"][og]
-        if og == info["enc_og"]:
-            continue
-        if isinstance(o, Stream) and o.d.get(b"Type") == Name(b"XRef"):
-            continue
-        for path_, s in rd.walk_strings(o):
-            lines.append("isodec %d %d %s %d %d %s" % (info["R"], aes, key_hex, og[0], og[1], hexs(s.b)))
-            meta.append((og, path_, "s"))
-        if isinstance(o, Stream):
-            lines.append("isodec %d %d %s %d %d %s" % (info["R"], aes, key_hex, og[0], og[1], hexs(o.data)))
-            meta.append((og, (), "t"))
-    out = run(lines)
-    dec = {}
-    for (og, p, k), o in zip(meta, out):
-        if not o.startswith("ok"):
-            dec[(og, p, k)] = None
-        else:
-            f = o.split()
-            dec[(og, p, k)] = bytes.fromhex(f[1]) if len(f) > 1 and f[1] != "-" else b""
-    root = info["root"]
-    cat = info["objs"].get((root.n, root.g), (None, 0))[0] if isinstance(root, Ref) else None
-    problems = []
-    clear_meta = None        # the catalog's metadata stream when /EncryptMetadata is false: its data is not encrypted
-    if not info["encmeta"]:
-        c2 = cat
-        if c2 is None and isinstance(root, Ref):
-            # catalog inside an object stream: find it after the containers are decrypted (below); metadata streams are top level
-            for og in info["order"]:
-                o, off = info["objs"][og]
-                if isinstance(o, Stream) and o.d.get(b"Type") == Name(b"Metadata") and o.d.get(b"Subtype") == Name(b"XML"):
-                    pass
-        if isinstance(c2, dict) and isinstance(c2.get(b"Metadata"), Ref):
-            clear_meta = (c2[b"Metadata"].n, c2[b"Metadata"].g)
+METHOD_OF_CFM = {b"V2": "1", b"AESV2": "2", b"AESV3": "3", b"None": "0"}
 
-    def rebuild(o, og, path_, parent=None):
-        if isinstance(o, Str):
-            if isinstance(parent, dict) and path_ and path_[-1] == b"Contents" and parent.get(b"Type") == Name(b"Sig") and b"ByteRange" in parent:
-                return o           # signature value: written in the clear (ISO 32000-2 7.6.2)
-            v = dec.get((og, path_, "s"))
-            if v is None:
-                problems.append("string %r %r does not decrypt (malformed AES data)" % (og, path_))
-                return o
-            return Str(v)
-        if isinstance(o, list):
-            return [rebuild(x, og, path_ + (k,)) for k, x in enumerate(o)]
-        if isinstance(o, dict):
-            return {k: rebuild(v, og, path_ + (k,), o) for k, v in o.items()}
-        return o
-    objs = {}
-    pending = []
-    for og in info["order"]:
-        o, off = info["objs"][og]
-        if og == info["enc_og"]:
-            continue
-        if isinstance(o, Stream):
-            if o.d.get(b"Type") == Name(b"XRef"):
+
+class EncOut:
+    """an encrypted file written by qpdf, read by the sequential scanner; decrypted by the EXTRACTED reference reader
+    (IsoEnc.c06_iso_decrypt_leaf: the ISO rule picks the method from the file's own /CF /StmF /StrF and from the /Crypt filter a
+    stream dictionary still carries, then Algorithm 1 / 1.A) with the KNOWN file key"""
+
+    def __init__(self, path, key_hex):
+        import c05
+        self.path, self.key = path, key_hex
+        data = open(path, "rb").read()
+        self.info = info = c05.enc_info(data)
+        eref = None
+        for t in info["trailers"]:
+            if b"Encrypt" in t:
+                eref = t[b"Encrypt"]
+        e = info["objs"][(eref.n, eref.g)][0] if isinstance(eref, Ref) else eref
+        cf = {}
+        if isinstance(e.get(b"CF"), dict):
+            for k, v in e[b"CF"].items():
+                m = v.get(b"CFM") if isinstance(v, dict) else None
+                cf[k] = METHOD_OF_CFM.get(m.b if isinstance(m, Name) else b"None", "?")
+        stmf = e[b"StmF"].b if isinstance(e.get(b"StmF"), Name) else gen.IDENTITY
+        strf = e[b"StrF"].b if isinstance(e.get(b"StrF"), Name) else gen.IDENTITY
+        kl = 32 if info["V"] >= 5 else (5 if info["V"] == 1 else info["Length"] // 8)
+        self.cfg = [str(info["V"]), str(info["R"]), str(kl), str(info["P"]), "1" if info["encmeta"] else "0", hexs(info["id1"]),
+                    ",".join("%s:%s" % (hexs(k), m) for k, m in sorted(cf.items())) or "-", hexs(stmf), hexs(strf)]
+        self.problems = []
+        self.members = {}          # objects found inside object streams
+        self.dec = {}
+
+    def line(self, kind, og, data):
+        return "c6isodec " + " ".join(self.cfg + [self.key, kind, str(og[0]), str(og[1]), hexs(data)])
+
+    def container_lines(self):
+        out = []
+        for og in self.info["order"]:
+            o, off = self.info["objs"][og]
+            if isinstance(o, Stream) and o.d.get(b"Type") == Name(b"ObjStm"):
+                out.append((og, self.line(gen.sdict_token(o.d, False), og, o.data)))
+        return out
+
+    def take_containers(self, results):
+        for (og, _), r in zip(self.container_lines(), results):
+            o = self.info["objs"][og][0]
+            if not r.startswith("ok"):
+                self.problems.append("object stream %r does not decrypt" % (og,))
                 continue
-            pt = dec.get((og, (), "t"))
-            if o.d.get(b"Type") == Name(b"ObjStm"):
-                if pt is None:
-                    problems.append("object stream %r does not decrypt" % (og,))
-                    continue
-                pending.append((o.d, pt))
+            f = r.split()
+            pt = bytes.fromhex(f[2]) if len(f) > 2 and f[2] != "-" else b""
+            try:
+                inner = rd.parse_objstm(o.d, rd.unfilter(o.d, pt))
+            except Exception as e:
+                self.problems.append("object stream does not inflate/parse after decryption: %r" % e)
                 continue
-            if og == clear_meta:
-                objs[og] = Stream(rebuild(o.d, og, ()), o.data)
-                continue
-            objs[og] = Stream(rebuild(o.d, og, ()), pt if pt is not None else o.data)
-            if pt is None:
-                problems.append("stream %r does not decrypt" % (og,))
-        else:
-            objs[og] = rebuild(o, og, ())
-    for d, pt in pending:
-        try:
-            inner = rd.parse_objstm(d, rd.unfilter(d, pt))
-        except Exception as e:
-            problems.append("object stream does not inflate/parse after decryption: %r" % e)
-            continue
-        for num, io in inner.items():
-            objs[(num, 0)] = io
-    # cleartext metadata with the catalog inside an object stream
-    if cat is None and isinstance(root, Ref):
-        cat = objs.get((root.n, root.g))
-        if not info["encmeta"] and isinstance(cat, dict) and isinstance(cat.get(b"Metadata"), Ref):
+            for num, io in inner.items():
+                self.members[(num, 0)] = io
+        root = self.info["root"]
+        cat = None
+        if isinstance(root, Ref):
+            cat = self.info["objs"].get((root.n, root.g), (None, 0))[0]
+            if cat is None:
+                cat = self.members.get((root.n, root.g))
+        self.rootmeta = None
+        if isinstance(cat, dict) and isinstance(cat.get(b"Metadata"), Ref):
             mog = (cat[b"Metadata"].n, cat[b"Metadata"].g)
-            raw = info["objs"].get(mog)
-            if raw is not None and isinstance(raw[0], Stream) and mog in objs:
-                objs[mog] = Stream(objs[mog].d, raw[0].data)
-                problems[:] = [p for p in problems if not p.startswith("stream %r does" % (mog,))]
-    tr = None
-    for t in info["trailers"]:
-        if b"Root" in t:
-            tr = t
-    return objs, tr, info, problems
+            mo = self.info["objs"].get(mog, (None, 0))[0]
+            if isinstance(mo, Stream) and mo.d.get(b"Type") == Name(b"Metadata") and mo.d.get(b"Subtype") == Name(b"XML"):
+                self.rootmeta = mog
+
+    def leaf_lines(self):
+        out = []
+        for og in self.info["order"]:
+            o, off = self.info["objs"][og]
+            if og == self.info["enc_og"]:
+                continue
+            if isinstance(o, Stream) and o.d.get(b"Type") in (Name(b"XRef"), Name(b"ObjStm")):
+                continue
+            for path_, st in self.walk(o, ()):
+                kind, sv = st
+                out.append(((og, path_, "s"), self.line(kind, og, sv.b)))
+            if isinstance(o, Stream):
+                out.append(((og, (), "t"), self.line(gen.sdict_token(o.d, og == self.rootmeta), og, o.data)))
+        return out
+
+    def walk(self, o, path_, parent=None):
+        """strings with the place that decides their treatment (signature /Contents: 7.6.2)"""
+        if isinstance(o, Str):
+            if isinstance(parent, dict) and path_ and path_[-1] == b"Contents" and b"ByteRange" in parent:
+                yield path_, ("s:g1" if parent.get(b"Type") == Name(b"Sig") else "s:g0", o)
+            else:
+                yield path_, ("s:o", o)
+        elif isinstance(o, list):
+            for k, x in enumerate(o):
+                yield from self.walk(x, path_ + (k,), o)
+        elif isinstance(o, dict):
+            for k, x in o.items():
+                yield from self.walk(x, path_ + (k,), o)
+        elif isinstance(o, Stream):
+            yield from self.walk(o.d, path_, None)
+
+    def take_leaves(self, results):
+        for (key, _), r in zip(self.leaf_lines(), results):
+            if r.startswith("ok"):
+                f = r.split()
+                self.dec[key] = bytes.fromhex(f[2]) if len(f) > 2 and f[2] != "-" else b""
+            else:
+                self.dec[key] = None
+
+    def document(self):
+        """(objs {(n,g): obj}, trailer)"""
+        def rebuild(o, og, path_):
+            if isinstance(o, Str):
+                v = self.dec.get((og, path_, "s"))
+                if v is None:
+                    self.problems.append("string %r %r does not decrypt (malformed AES data)" % (og, path_))
+                    return o
+                return Str(v)
+            if isinstance(o, list):
+                return [rebuild(x, og, path_ + (k,)) for k, x in enumerate(o)]
+            if isinstance(o, dict):
+                return {k: rebuild(v, og, path_ + (k,)) for k, v in o.items()}
+            return o
+        objs = {}
+        for og in self.info["order"]:
+            o, off = self.info["objs"][og]
+            if og == self.info["enc_og"]:
+                continue
+            if isinstance(o, Stream):
+                if o.d.get(b"Type") in (Name(b"XRef"), Name(b"ObjStm")):
+                    continue
+                pt = self.dec.get((og, (), "t"))
+                if pt is None:
+                    self.problems.append("stream %r does not decrypt" % (og,))
+                objs[og] = Stream(rebuild(o.d, og, ()), pt if pt is not None else o.data)
+            else:
+                objs[og] = rebuild(o, og, ())
+        objs.update(self.members)
+        tr = None
+        for t in self.info["trailers"]:
+            if b"Root" in t:
+                tr = t
+        strip_crypt(objs)
+        return objs, tr
+
+
+def read_encrypted_outputs(items, run):
+    """items: [(path, key_hex)] -> [EncOut or Exception]; two batches of extracted-code lines for all files together"""
+    outs = []
+    for path, key in items:
+        try:
+            outs.append(EncOut(path, key))
+        except Exception as e:
+            outs.append(e)
+    good = [o for o in outs if isinstance(o, EncOut)]
+    cl = [o.container_lines() for o in good]
+    res = run([l for c in cl for _, l in c], shards=4)
+    k = 0
+    for o, c in zip(good, cl):
+        o.take_containers(res[k:k + len(c)])
+        k += len(c)
+    ll = [o.leaf_lines() for o in good]
+    res = run([l for c in ll for _, l in c], shards=4)
+    k = 0
+    for o, c in zip(good, ll):
+        o.take_leaves(res[k:k + len(c)])
+        k += len(c)
+    return outs
 
 
 def strip_crypt(objs):
@@ -433,7 +506,8 @@ def plain_objs(ef):
 def compare_doc(ef, objs, trailer):
     """None or the reason the document differs from the plaintext"""
     try:
-        dociso.iso(plain_objs(ef), ef.plain.trailer, objs, trailer)
+        # page-tree normal form on both sides: a linearized output has the inherited attributes pushed down to the pages
+        dociso.iso(dociso.push_down(plain_objs(ef), ef.plain.trailer), ef.plain.trailer, dociso.push_down(objs, trailer), trailer)
         return None
     except dociso.Mismatch as e:
         return str(e)
@@ -525,6 +599,15 @@ def f11_class(ef, l):
                x.get("method") != l.get("method") for x in ef.leaves) or \
         any(x["num"] == l["num"] and x["kind"] in ("s:g1", "s:g0") and ef.cf.get(ef.strf, "0") in ("1", "2") and ef.cf.get(ef.strf) != l.get("method")
             for x in ef.leaves)
+
+
+def f12_class(ef, num):
+    """a stream with a /Crypt filter in the ARRAY form whose crypt filter differs in method from /StmF (two-pass outputs)"""
+    if num not in ef.override or not isinstance(ef.E.objects[num].d.get(b"Filter"), list):
+        return False
+    name = ef.override[num][1]
+    m = "0" if name == gen.IDENTITY else ef.cf.get(name, "0")
+    return m != ("0" if ef.stmf == gen.IDENTITY else ef.cf.get(ef.stmf, "0"))
 
 
 def file_signatures(ef):
@@ -812,6 +895,11 @@ def parse_show(text):
     return r
 
 
+OPTSETS = {"preserve": ["--stream-data=preserve"], "raw": ["--compress-streams=n", "--decode-level=none"], "objstm": ["--object-streams=generate"],
+           "lin": ["--linearize"]}
+OPTSETS_ALL = dict(OPTSETS, default=[])
+
+
 def cli_part(chk, efs, run, drv, work, rng):
     thorough = chk.tier == "thorough"
     jobs = []     # (ef, role, pw, kind, args, outpath)
@@ -838,6 +926,20 @@ def cli_part(chk, efs, run, drv, work, rng):
             if role in ("user", "owner", "hexkey", "wrong"):
                 out2 = os.path.join(work, "keep_%s.pdf" % base)
                 jobs.append((ef, role, pw, "preserve", rec + pa + ["--static-id", "--static-aes-iv", ef.path, out2], out2))
+            if role == "user":
+                # the writer side of preservation under the option sets that decide whether a stream is re-filtered or copied as it is
+                names = list(OPTSETS) if (ef.plan.get("crypt_family") or thorough) else [list(OPTSETS)[n % len(OPTSETS)]]
+                for on in names:
+                    o5 = os.path.join(work, "keep_%s_%s.pdf" % (base, on))
+                    jobs.append((ef, role, pw, "preserve", rec + pa + OPTSETS[on] + ["--static-id", "--static-aes-iv", ef.path, o5], o5))
+                if ef.plan.get("crypt_family") or (thorough and n % 4 == 0):
+                    # --copy-encryption onto a file that itself has /Crypt streams: the encrypted file is both input and source of the encryption
+                    efp = [a.replace("--password=", "--encryption-file-password=") if isinstance(a, str) else a.replace(b"--password=", b"--encryption-file-password=")
+                           for a in pa if a != "--password-mode=hex-bytes"]
+                    for on in ("default", "preserve", "raw") if ef.plan.get("crypt_family") else ("raw",):
+                        o6 = os.path.join(work, "copyself_%s_%s.pdf" % (base, on))
+                        jobs.append((ef, role, pw, "copyself", rec + pa + OPTSETS_ALL[on] + ["--static-id", "--static-aes-iv", ef.path,
+                                     "--copy-encryption=" + ef.path] + efp + [o6], o6))
             if role in ("user", "wrong") and (n % 3 == 0 or thorough):
                 out3 = os.path.join(work, "json_%s.json" % base)
                 jobs.append((ef, role, pw, "json", rec + pa + ["--json-output", ef.path, out3], out3))
@@ -929,7 +1031,7 @@ def cli_part(chk, efs, run, drv, work, rng):
                 bad("exit 2 without the password error message")
             continue
         if rc not in (0, 3) or not exists:
-            if not sig and kind in ("preserve", "copyenc") and ef.plan.get("length_style") == "absent" and ef.V in (2, 4):
+            if not sig and kind in ("preserve", "copyenc", "copyself") and ef.plan.get("length_style") == "absent" and ef.V in (2, 4):
                 sig = SIG_PREFIX + "preserve-without-length"
             if not sig and "invalid password" not in err:
                 sig = first_sig(ef)
@@ -937,13 +1039,13 @@ def cli_part(chk, efs, run, drv, work, rng):
             continue
         if rc == 3 and not sig:
             s3 = first_sig(ef)
-            if kind in ("preserve", "copyenc") and ef.plan.get("length_style") == "absent" and ef.V in (2, 4, 5):
+            if kind in ("preserve", "copyenc", "copyself") and ef.plan.get("length_style") == "absent" and ef.V in (2, 4, 5):
                 s3 = SIG_PREFIX + "preserve-without-length"
             bad("warnings while reading a well-formed encrypted file", signature=s3)
         if kind == "decrypt":
             to_strict.append(outp)
             strict_meta.append((ef, role, pw, case, kind))
-        elif kind in ("preserve", "copyenc"):
+        elif kind in ("preserve", "copyenc", "copyself"):
             enc_outs.append((ef, role, pw, case, kind, outp))
         elif kind == "json":
             try:
@@ -973,14 +1075,21 @@ def cli_part(chk, efs, run, drv, work, rng):
     # encrypted outputs (default preservation, --copy-encryption): independent decryptor with the known key
     def runner_plain(lines):
         return run(lines, shards=4)
-    for ef, role, pw, case, kind, outp in enc_outs:
+    eouts = read_encrypted_outputs([(outp, hexs(ef.key)) for ef, role, pw, case, kind, outp in enc_outs], run)
+    for (ef, role, pw, case, kind, outp), eo in zip(enc_outs, eouts):
         s3 = first_sig(ef)
-        if role == "hexkey" and ef.V < 5 and kind == "preserve":
+        if role == "hexkey" and ef.V < 5 and kind.startswith("preserve"):
             s3 = SIG_PREFIX + "hex-key-preserve-v4"
         if ef.plan.get("length_style") == "absent" and ef.V in (2, 4, 5):
             s3 = SIG_PREFIX + "preserve-without-length"
+        kind = kind.split(":")[0]
+        if isinstance(eo, Exception):
+            chk.violation({"kind": "property-fails-on-implementation", "part": "cli-" + kind, "what": "encrypted output unreadable by the independent reader: %r" % eo,
+                           "case": case}, signature=s3)
+            continue
         try:
-            objs, tr, info, problems = read_encrypted_output(outp, hexs(ef.key), runner_plain)
+            objs, tr = eo.document()
+            info, problems = eo.info, eo.problems
         except Exception as e:
             chk.violation({"kind": "property-fails-on-implementation", "part": "cli-" + kind, "what": "encrypted output unreadable by the independent reader: %r" % e,
                            "case": case}, signature=s3)
@@ -993,7 +1102,7 @@ def cli_part(chk, efs, run, drv, work, rng):
             probs.append("/O /U /OE /UE /Perms not copied")
         if bool(info["encmeta"]) != bool(ef.plan["em"]):
             probs.append("/EncryptMetadata %r" % info["encmeta"])
-        if kind == "preserve" and info["id1"] != ef.id0 and ef.V < 5:
+        if kind in ("preserve", "copyself") and info["id1"] != ef.id0 and ef.V < 5:
             probs.append("first /ID changed (the key depends on it)")
         if not probs:
             why = compare_doc(ef, objs, tr) if kind == "preserve" else compare_doc(ef, objs, tr)
@@ -1002,6 +1111,9 @@ def cli_part(chk, efs, run, drv, work, rng):
         if probs:
             if first_sig(ef, " ".join(probs)) == SIG_PREFIX + "sig-contents-without-type":
                 s3 = SIG_PREFIX + "sig-contents-without-type"
+            m12 = re.search(r"differs from the plaintext document: (\d+) \d+ R: stream", " ".join(probs))
+            if m12 and "--linearize" in case.get("qpdf_args", []) and f12_class(ef, int(m12.group(1))):
+                s3 = SIG_PREFIX + "crypt-array-erased-in-first-pass"
             if not s3 and not ef.plan["em"] and any("QVM" in p or "metadata" in p.lower() for p in probs):
                 s3 = SIG_PREFIX + "cleartext-metadata-dict-string"
             chk.violation({"kind": "property-fails-on-implementation", "part": "cli-" + kind, "what": "; ".join(probs)[:900], "case": case}, signature=s3)
